@@ -68,9 +68,9 @@ def Stage.request? : Stage → Option Request
 
 /-- The id a response to this request value carries: the request's id; `null` when the value
 could not be decoded, when it has no id, or when the id itself is what `isSane` rejects. -/
-def Stage.id : Stage → Json
+def Stage.id (cfg : Config) : Stage → Json
   | .undecodable => .null
-  | .insane e r => if e = .id then .null else idJson r.id
+  | .insane e r => if e = .id then .null else echoId cfg r.id
   | .unknownMethod r => idJson r.id
   | .badParams r _ _ => idJson r.id
   | .run r _ _ => idJson r.id
@@ -177,9 +177,9 @@ carrying the id of `e`; its error code is that of the first stage `e` fails at (
 decodable Request, -32600 not sane, -32601 unknown method, -32602 params do not bind); and if `e`
 passes every stage it is what the handler returned. -/
 def AnswersRequest (cfg : Config) (env : Env) (tbl : Table) (decodeFailCode : Int) (e r : Json) : Prop :=
-  IsResponse (stageOf env tbl e).id r ∧
+  IsResponse ((stageOf env tbl e).id cfg) r ∧
   (∀ code, (stageOf env tbl e).errorCode? decodeFailCode = some code →
-      IsErrorResponse code (stageOf env tbl e).id r) ∧
+      IsErrorResponse code ((stageOf env tbl e).id cfg) r) ∧
   (∀ req m args id, stageOf env tbl e = .run req m args → req.id = some id →
       r = (handlerResponse cfg (env.call m.name args) id).toJson)
 
@@ -205,5 +205,158 @@ def stringField : Option Json → Option String
 def OptionalTail : List Param → Prop
   | [] => True
   | p :: ps => (p.optional = true → ∀ q ∈ ps, q.optional = true) ∧ OptionalTail ps
+
+/-! ## JSON-RPC 2.0 from its text — independent of juno's functions
+
+Nothing below mentions `decodeRequest`, `isSane`, `buildArguments` or `handleRequest`. -/
+
+/-- §4: what a JSON value is, as a Request -/
+inductive SpecKind where
+  /-- not a valid Request object: answered with -32600 -/
+  | invalid
+  /-- a Request object without `id` member: never answered -/
+  | notification (method : String) (params : Option Json)
+  /-- a Request object with an `id` member holding a String, a Number or Null: answered once, with that id -/
+  | request (id : Json) (method : String) (params : Option Json)
+
+/-- `params`, if present, MUST be a Structured value (Array or Object): `some none` = omitted,
+`none` = present but not structured -/
+def specParams : Option Json → Option (Option Json)
+  | none => some none
+  | some (.arr xs) => some (some (.arr xs))
+  | some (.obj o) => some (some (.obj o))
+  | some _ => none
+
+/-- §4 read literally for an object written the ordinary way (`PlainMembers`): `jsonrpc` is
+exactly "2.0"; `method` is a (non-empty) String; `params`, if present, is an Array or an Object;
+`id`, if present, is a String, a Number or Null — and then the value is NOT a notification. -/
+def specKindObj (kvs : List (String × Json)) : SpecKind :=
+    match member kvs "jsonrpc", member kvs "method" with
+    | some (.str v), some (.str m) =>
+      if v ≠ "2.0" ∨ m = "" then .invalid else
+      match specParams (member kvs "params") with
+      | none => .invalid
+      | some p =>
+        match member kvs "id" with
+        | none => .notification m p
+        | some (.str s) => .request (.str s) m p
+        | some (.num t) => .request (.num t) m p
+        | some .null => .request .null m p
+        | some _ => .invalid
+    | _, _ => .invalid
+
+/-- §4 for any JSON value: only objects can be Requests -/
+def specKind : Json → SpecKind
+  | .obj kvs => specKindObj kvs
+  | _ => .invalid
+
+/-- §4.2 by position: the supplied values against the first parameters, in order -/
+def specDecodeAll (env : Env) : List Param → List Json → Option (List Json)
+  | p :: ps, v :: vs => do
+    let a ← env.decode p.ty v
+    let r ← specDecodeAll env ps vs
+    pure (a :: r)
+  | _, _ => some []
+
+/-- §4.2 by name: every parameter takes the member of its name; an absent optional parameter
+takes its zero value, an absent required one makes the call unbindable -/
+def specNamed (env : Env) (kvs : List (String × Json)) : List Param → Option (List Json)
+  | [] => some []
+  | p :: ps =>
+    match member kvs p.name with
+    | some v => do
+      let a ← env.decode p.ty v
+      let r ← specNamed env kvs ps
+      pure (a :: r)
+    | none =>
+      if p.optional then do
+        let r ← specNamed env kvs ps
+        pure (env.zero p.ty :: r)
+      else none
+
+/-- The argument vector the caller supplied, or `none` when the parameters cannot be bound to the
+method ("Invalid params"): by position — not more values than parameters, every parameter left
+out is optional; by name — every member names a parameter, every required parameter is named;
+omitted — every parameter is optional. -/
+def specBind (env : Env) (ps : List Param) : Option Json → Option (List Json)
+  | none => if ps.all (·.optional) then some (ps.map (fun p => env.zero p.ty)) else none
+  | some (.arr []) => if ps.all (·.optional) then some (ps.map (fun p => env.zero p.ty)) else none
+  | some (.obj []) => if ps.all (·.optional) then some (ps.map (fun p => env.zero p.ty)) else none
+  | some (.arr vs) =>
+    if vs.length ≤ ps.length ∧ (ps.drop vs.length).all (·.optional) then
+      (specDecodeAll env ps vs).map (fun as => as ++ (ps.drop vs.length).map (fun p => env.zero p.ty))
+    else none
+  | some (.obj kvs) =>
+    if kvs.all (fun kv => ps.any (fun p => p.name = kv.1)) then specNamed env kvs ps else none
+  | some _ => none
+
+/-- the handler invocation a Request must cause -/
+def specCall (env : Env) (tbl : Table) (method : String) (params : Option Json) : Option Call :=
+  match lookupMethod tbl method with
+  | none => none
+  | some m => (specBind env m.params params).map (fun args => (m.name, args))
+
+/-- the id an Invalid Request answer may carry: Null, or the request's own `id` member when that is a
+legal id -/
+def InvalidIdOk (j rid : Json) : Prop :=
+  rid = .null ∨ ∃ kvs, j = .obj kvs ∧ member kvs "id" = some rid
+
+/-- the `id` member, if there is one, is a String, a Number or Null -/
+def IdScalarOrAbsent (kvs : List (String × Json)) : Prop :=
+  ∀ v, member kvs "id" = some v → (∃ s, v = .str s) ∨ (∃ t, v = .num t) ∨ v = .null
+
+/-- where the text of the specification leaves room, the spec-facing theorems do not speak:
+`"params": null` (not a Structured value, commonly accepted as "omitted"; juno accepts it) and ids
+with a fractional part ("SHOULD NOT"; juno rejects them) -/
+def SpecDefinite (kvs : List (String × Json)) : Prop :=
+  member kvs "params" ≠ some .null ∧ ∀ t, member kvs "id" = some (.num t) → idBad (some (.num t)) = false
+
+/-- What the specification demands for one request value: response (or silence) and handler call. -/
+def MeetsSpec (cfg : Config) (env : Env) (tbl : Table) (j : Json) (out : Option Response × List Call) : Prop :=
+  match specKind j with
+  | .invalid =>
+    out.2 = [] ∧ ∃ r, out.1 = some r ∧ IsErrorResponse (-32600) r.id r.toJson ∧ InvalidIdOk j r.id
+  | .notification m p => out.1 = none ∧ out.2 = (specCall env tbl m p).toList
+  | .request id m p =>
+    out.2 = (specCall env tbl m p).toList ∧ ∃ r, out.1 = some r ∧ r.id = id ∧
+      match lookupMethod tbl m with
+      | none => IsErrorResponse (-32601) id r.toJson
+      | some meth =>
+        match specBind env meth.params p with
+        | none => IsErrorResponse (-32602) id r.toJson
+        | some args => r = handlerResponse cfg (env.call meth.name args) id
+
+/-- the table is one for which "by position" and "by name" mean something: distinct parameter
+names, optional parameters last (checked on juno's real tables by the harness) -/
+def TableOk (tbl : Table) : Prop :=
+  ∀ m ∈ tbl, (m.params.map (·.name)).Nodup ∧ OptionalTail m.params
+
+/-- a request value in the domain of the spec-facing theorems: not an object, or an object written
+plainly whose `params` (if an array or object) is in Go's canonical form with distinct member names -/
+def PlainEntry : Json → Prop
+  | .obj kvs =>
+    PlainMembers kvs ∧
+    (∀ v, member kvs "params" = some v → canon v = v ∧ ∀ o, v = .obj o → (o.map (·.1)).Nodup)
+  | _ => True
+
+/-- the exclusions under which a request value is judged against the specification for the server
+as it is; each excluded shape is a documented deviation with its own counterexample theorem:
+`"id": null`, a single (non-batch) value that `Decode(*Request)` rejects, and (outside the text of
+the specification) `"params": null`, fractional ids, non-canonical or duplicate params members -/
+def Judged (single : Bool) (e : Json) : Prop :=
+  PlainEntry e ∧
+  (∀ kvs, e = .obj kvs → SpecDefinite kvs ∧ IdScalarOrAbsent kvs ∧ member kvs "id" ≠ some .null) ∧
+  (single = true → decodeRequest e ≠ none)
+
+def SpecKind.isNotification : SpecKind → Bool
+  | .notification _ _ => true
+  | _ => false
+
+/-- a legal id of a response: String, Number or Null -/
+def LegalId : Json → Prop
+  | .str _ => True
+  | .num _ => True
+  | .null => True
+  | _ => False
 
 end Juno.C11
